@@ -373,7 +373,7 @@ theorem step_printValue {env : Env} {n : Nat} (S : Spec env n) :
   · -- pointer
     split
     · have g := G_wb hp 0x26
-      exact GR_from g (S.printValue _ _ _ _ _ (G.pre hp g) (by simpa [ValOk] using hv))
+      exact GR_from g (S.printSlot _ _ _ _ _ _ (G.pre hp g) (by simpa [ValOk] using hv))
     · exact GR_unsupported _
   · exact GR_unsupported _
   · exact GR_unsupported _
